@@ -11,6 +11,27 @@ for line in open(os.path.join(HERE, 'properties.jsonl')):
 
 # id -> (technique, level text, level note, design ref)
 CHECKS = {
+ 'C03': ('reference-model oracle (units_ref) over exhaustive prefix x symbol atoms and generated compounds; rejection oracle by decomposition',
+         'Every (prefix|none) x table-symbol string and all #system symbols are enumerated, thousands of generated products/quotients/groups and hostile strings are parsed by the real code and compared (factor rtol 1e-10, dimensions exact, unit map, round trip) with an independent structural model that never parses text. Held on the executions observed.',
+         'Trusts the published tables as read once by vt/refmodel/units_ref.py and float comparison at rtol 1e-10.', '5/C03'),
+ 'C04': ('reference-model + metamorphic oracle (value, round trip, path independence, refusal with before/after fingerprint) over generated unit triples',
+         'Real Quantity.value/to executions on same-dimension triples, reciprocal pairs, bare numbers and refusal pairs are compared with x*F(u)/F(v) from the structural model; refused conversions must leave the fingerprint of the quantity unchanged.',
+         'Trusts units_ref factors (from the published tables); rtol 1e-9; temperature/log units excluded (C05).', '5/C04'),
+ 'C05': ('definition-based reference formulas over all unit pairs of both families; inverse/identity/level-sum metamorphic checks',
+         'All ordered temperature pairs (incl. every prefixed kelvin) and all documented log/linear pairs with admissible prefixes are enumerated; N magnitudes per pair are converted by the real code and compared with formulas written from the definitions, plus forward-then-reverse, identity and power-sum relations.',
+         'Trusts vt/refmodel/templog_ref.py (hard-coded SI prefixes and reference levels); B<->Np only to 5e-5.', '5/C05'),
+ 'C06': ('base-value reference model: the result is re-expressed in base dimensions through the model factor of its reported units',
+         'For generated operand pairs (any mix of units, numbers on either side, scalars/arrays, int/pair/float exponents) the real result is compared with the same operation on the operands base-dimension values; dimensions exact, unit exponents exact, sums of different dimension must raise.',
+         'Trusts units_ref; rtol 1e-9; fractional powers on positive magnitudes.', '5/C06'),
+ 'C07': ('icontract post-conditions on the real Quantity methods over a weak registry of all live quantities + twin differential + aliasing probes + repo tests under contracts',
+         'Every operator/NumPy/value call the workload causes (also nested and those made by the repository own tests) is followed by the post-condition that every quantity alive at entry keeps its fingerprint (in-place methods: every one except self); operands are compared with never-used twins under a probe sequence; in-place steps on results/operands must not leak into the other.',
+         'Fingerprint = type+bytes of value, error, units text, unit exponents, cached unit factor; contracts are record-only; post-conditions are not evaluated when the call raises (the harness compares fingerprints itself in that case).', '5/C07'),
+ 'C08': ('icontract post-conditions on the real Magnitude arithmetic and UnitType.convert + direct conversion-scaling checks against units_ref',
+         'Non-negativity, sum-of-errors, |k| scaling, first-order lower bounds and exactness are asserted on every Magnitude operation and unit conversion the workload causes (direct, through Quantity, and in the repository own tests); linear conversions must scale the absolute error like the value.',
+         'Inputs carry non-negative absolute errors; k/uncertain and the power formula only held to non-negativity; slack 1e-12.', '5/C08'),
+ 'C09': ('event-trace monitor: wrappers on UnitEnvironment.__init__/close and DIP.parse record table digests; offline trace checker',
+         'Histories of nested/repeated/failing unit scopes and DIP parses with $unit are executed; the digest of the process-wide unit, prefix and conversion-type tables at every scope end, failed construction, parse end and history end must equal the digest at the corresponding start; registered symbols must work inside and fail outside.',
+         'Only input-driven failures are exercised (no asynchronous exceptions).', '5/C09'),
  'C20': ('lock-step reference-model monitor over generated operation histories + exhaustive small grids',
          'Every operation of a generated history on the real ParameterTable / RowCollector is followed by a comparison of the whole observable state with an executable dict/list model; all plot grids up to the stated size and all combination shapes are enumerated completely. Held on the executions observed, not a proof.',
          'Trusts the 40-line Python models (dict, list, itertools.product) and numpy/pandas as shipped.', '5/C20'),
